@@ -1,0 +1,17 @@
+//go:build verif
+
+// Machine-checked contracts (gowp, see /verif/DESIGN.md). Comment-only file:
+// nothing here is compiled into the package.
+
+package util
+
+// ---- LockedMap, as seen by its clients (interface contract, A9) -----------------
+// The map is viewed as an abstract map mhas/mval of (object, key); one call is
+// one atomic step on that key (A6).
+
+//@ func (LockedMap).Get
+//@   nobody
+//@   calls f(value, found) -> ferr
+//@   where found == mhas(self, key)
+//@   where found ==> value == mval(self, key, value)
+//@   ensures r0 == ferr
